@@ -594,6 +594,11 @@ func (w *szWalker) intExpr(e ast.Expr, st *szState) *szExpr {
 		}
 		if sel, ok := x.Fun.(*ast.SelectorExpr); ok && len(x.Args) == 0 {
 			if s := w.p.Info.Selections[sel]; s != nil && s.Kind() == types.MethodVal {
+				if szLenContracts[s.Obj().(*types.Func).FullName()] {
+					v := w.freshVar("len")
+					st.add(szCmp("le", szC(0), v))
+					return v
+				}
 				if suffix, isAcc := w.accessors[s.Obj().(*types.Func)]; isAcc {
 					if n, ok := w.pureName(sel.X, st); ok {
 						v := szV("len(" + n + suffix + ")")
@@ -819,6 +824,15 @@ func (w *szWalker) siteCall(x *ast.CallExpr, st *szState) {
 	if (w.pkgFunc(x.Fun, "strings", "Repeat") || w.pkgFunc(x.Fun, "bytes", "Repeat")) && len(x.Args) == 2 {
 		w.emit(x.Pos(), "repeat", exprText(x), "count", szCmp("le", szC(0), w.intExpr(x.Args[1], st)), st)
 		return
+	}
+	// a function of the module that hands a parameter on, unchanged and unguarded, as a Repeat count or a make length /
+	// capacity (doc.Writer.WriteSpaces, NewEmptyRecord ...): the argument of every call is the size operand
+	if f := w.calleeFunc(x.Fun); f != nil {
+		for _, k := range szSinkParams[f.FullName()] {
+			if k < len(x.Args) && !x.Ellipsis.IsValid() {
+				w.emit(x.Pos(), "call", exprText(x), fmt.Sprintf("arg%d", k), szCmp("le", szC(0), w.intExpr(x.Args[k], st)), st)
+			}
+		}
 	}
 	if w.isBuiltin(x.Fun, "make") && len(x.Args) >= 2 {
 		t := w.typeOf(x.Args[0])
@@ -2127,6 +2141,15 @@ func (w *szWalker) classify(fd *ast.FuncDecl) {
 					okObj = nil // v += k (k >= 0) keeps the bound the other assignments give
 				}
 				good := plain && len(x.Lhs) == len(x.Rhs) && (x.Tok == token.ASSIGN || x.Tok == token.DEFINE || x.Tok == token.ADD_ASSIGN) && okRHS(x.Rhs[i])
+				if !good && plain && x.Tok == token.ASSIGN && len(x.Lhs) == len(x.Rhs) {
+					// v = v + k (k >= 0) is v += k
+					if be, ok := ast.Unparen(x.Rhs[i]).(*ast.BinaryExpr); ok && be.Op == token.ADD {
+						if id, ok := ast.Unparen(be.X).(*ast.Ident); ok && w.obj(id) == o {
+							okObj = nil
+							good = okRHS(be.Y)
+						}
+					}
+				}
 
 				if !good {
 					bad[o] = true
@@ -2205,6 +2228,168 @@ func (w *szWalker) classify(fd *ast.FuncDecl) {
 	}
 }
 
+// length accessors of types outside the module (their source is not walked): the result is a len(..), so it is not negative
+var szLenContracts = map[string]bool{"(*github.com/mithrandie/go-text/json.Object).Len": true}
+
+// szSinkParams: FullName of a function of the module -> indices of its int parameters that are never assigned in its body and
+// appear bare as the count of strings.Repeat / bytes.Repeat or as a length / capacity of make (computeSinkParams).  Keyed by
+// name: every package is type-checked on its own, so the object of an imported function is not the object of its declaration.
+var szSinkParams = map[string][]int{}
+
+func (w *szWalker) calleeFunc(fun ast.Expr) *types.Func {
+	switch f := ast.Unparen(fun).(type) {
+	case *ast.Ident:
+		if o, ok := w.obj(f).(*types.Func); ok {
+			return o
+		}
+	case *ast.SelectorExpr:
+		if sel := w.p.Info.Selections[f]; sel != nil {
+			if o, ok := sel.Obj().(*types.Func); ok {
+				return o
+			}
+			return nil
+		}
+		if o, ok := w.p.Info.Uses[f.Sel].(*types.Func); ok {
+			return o
+		}
+	}
+	return nil
+}
+
+func computeSinkParams(pkgs []*Pkg, module string) {
+	// to a fixpoint: a parameter handed on bare to a sink parameter of another function of the module is one itself
+	for round := 0; round < 5; round++ {
+		n := len(szSinkParams)
+		computeSinkParamsOnce(pkgs, module)
+		if len(szSinkParams) == n {
+			return
+		}
+	}
+}
+
+func computeSinkParamsOnce(pkgs []*Pkg, module string) {
+	for _, p := range pkgs {
+		if !strings.HasPrefix(p.Path, module) {
+			continue
+		}
+		for _, f := range p.Files {
+			for _, d := range f.Decls {
+				fd, ok := d.(*ast.FuncDecl)
+				if !ok || fd.Body == nil || fd.Type.Params == nil {
+					continue
+				}
+				fo, _ := p.Info.Defs[fd.Name].(*types.Func)
+				if fo == nil {
+					continue
+				}
+				params := map[types.Object]int{}
+				k := 0
+				for _, fl := range fd.Type.Params.List {
+					if len(fl.Names) == 0 {
+						k++
+					}
+					for _, n := range fl.Names {
+						if o := p.Info.Defs[n]; o != nil && isIntType(o.Type()) {
+							params[o] = k
+						}
+						k++
+					}
+				}
+				if len(params) == 0 {
+					continue
+				}
+				use := func(e ast.Expr) types.Object {
+					if id, ok := ast.Unparen(e).(*ast.Ident); ok {
+						if o := p.Info.Uses[id]; o != nil {
+							if _, isParam := params[o]; isParam {
+								return o
+							}
+						}
+					}
+					return nil
+				}
+				sunk := map[types.Object]bool{}
+				ast.Inspect(fd.Body, func(n ast.Node) bool {
+					switch x := n.(type) {
+					case *ast.AssignStmt:
+						for _, l := range x.Lhs {
+							if o := use(l); o != nil {
+								delete(params, o)
+							}
+						}
+					case *ast.IncDecStmt:
+						if o := use(x.X); o != nil {
+							delete(params, o)
+						}
+					case *ast.UnaryExpr:
+						if x.Op == token.AND {
+							if o := use(x.X); o != nil {
+								delete(params, o)
+							}
+						}
+					case *ast.CallExpr:
+						if sel, ok := x.Fun.(*ast.SelectorExpr); ok && sel.Sel.Name == "Repeat" && len(x.Args) == 2 {
+							if id, ok := sel.X.(*ast.Ident); ok {
+								if pn, ok := p.Info.Uses[id].(*types.PkgName); ok && (pn.Imported().Path() == "strings" || pn.Imported().Path() == "bytes") {
+									if o := use(x.Args[1]); o != nil {
+										sunk[o] = true
+									}
+								}
+							}
+						}
+						var callee *types.Func
+						switch f := ast.Unparen(x.Fun).(type) {
+						case *ast.Ident:
+							callee, _ = p.Info.Uses[f].(*types.Func)
+						case *ast.SelectorExpr:
+							if sel := p.Info.Selections[f]; sel != nil {
+								callee, _ = sel.Obj().(*types.Func)
+							} else {
+								callee, _ = p.Info.Uses[f.Sel].(*types.Func)
+							}
+						}
+						if callee != nil && !x.Ellipsis.IsValid() {
+							for _, k := range szSinkParams[callee.FullName()] {
+								if k < len(x.Args) {
+									if o := use(x.Args[k]); o != nil {
+										sunk[o] = true
+									}
+								}
+							}
+						}
+						if id, ok := x.Fun.(*ast.Ident); ok && id.Name == "make" && len(x.Args) >= 2 {
+							if _, isB := p.Info.Uses[id].(*types.Builtin); isB {
+								// make(T, n[, c]) needs 0 <= n; make(T, 0, c) needs 0 <= c
+								if o := use(x.Args[1]); o != nil {
+									sunk[o] = true
+								}
+								if len(x.Args) == 3 {
+									if lit, ok := x.Args[1].(*ast.BasicLit); ok && lit.Value == "0" {
+										if o := use(x.Args[2]); o != nil {
+											sunk[o] = true
+										}
+									}
+								}
+							}
+						}
+					}
+					return true
+				})
+				var idx []int
+				for o := range sunk {
+					if k, ok := params[o]; ok {
+						idx = append(idx, k)
+					}
+				}
+				sort.Ints(idx)
+				if len(idx) > 0 {
+					szSinkParams[fo.FullName()] = idx
+				}
+			}
+		}
+	}
+}
+
 type szResult struct {
 	Sizes     []szSite `json:"sizes"`
 	LoopSites []szSite `json:"loop_edges"`
@@ -2215,12 +2400,66 @@ type szResult struct {
 }
 
 // generated by goyacc (their source is the grammar; goto / table loops): not walked
-var szSkipFiles = map[string]bool{"path_parser.go": true, "query_parser.go": true}
+// and the interactive shell's line editor (build-tagged readline files of lib/terminal: not run by a query)
+var szSkipFiles = map[string]bool{"lib/json/path_parser.go": true, "lib/json/query_parser.go": true,
+	"lib/terminal/completer_readline.go": true, "lib/terminal/terminal_readline.go": true}
 
-func walkPackage(p *Pkg, res *szResult, sizes bool) {
+func pathTail(path string) string {
+	if i := strings.Index(path, "/lib/"); i >= 0 {
+		return path[i+1:]
+	}
+	return path
+}
+
+// szGroup: one set of generated files.  sizePkgs: packages whose size obligations are kept; loopPkgs: packages whose loops are.
+// The package lists are parameters: ERRFACTS_LIB_SIZE_PKGS / ERRFACTS_LIB_LOOP_PKGS (comma-separated lib/<name>) replace the
+// defaults of the second group.
+type szGroup struct {
+	sizePkgs, loopPkgs []string
+}
+
+var szCoreGroup = szGroup{sizePkgs: []string{"lib/query"}, loopPkgs: []string{"lib/query", "lib/value", "lib/json"}}
+
+// every other non-test package of the module that runs at query time (lib/parser is goyacc output + a hand scanner: C18's)
+var szLibGroup = szGroup{
+	sizePkgs: []string{"lib/action", "lib/cli", "lib/doc", "lib/excmd", "lib/file", "lib/json", "lib/option", "lib/syntax", "lib/terminal", "lib/value"},
+	loopPkgs: []string{"lib/action", "lib/cli", "lib/doc", "lib/excmd", "lib/file", "lib/option", "lib/syntax", "lib/terminal"},
+}
+
+func envList(name string, def []string) []string {
+	if v := os.Getenv(name); v != "" {
+		return strings.Split(v, ",")
+	}
+	return def
+}
+
+func walkGroup(pkgs []*Pkg, g szGroup) *szResult {
+	res := &szResult{ConvKinds: map[string]int{}}
+	all := map[string][2]bool{}
+	var order []string
+	for _, n := range g.sizePkgs {
+		all[n] = [2]bool{true, false}
+		order = append(order, n)
+	}
+	for _, n := range g.loopPkgs {
+		if v, ok := all[n]; ok {
+			all[n] = [2]bool{v[0], true}
+		} else {
+			all[n] = [2]bool{false, true}
+			order = append(order, n)
+		}
+	}
+	// the historical order of the first group: sizes package first, then the loop-only packages as listed
+	for _, n := range order {
+		walkPackage(findPkg(pkgs, "/"+n), res, all[n][0], all[n][1])
+	}
+	return res
+}
+
+func walkPackage(p *Pkg, res *szResult, sizes, loops bool) {
 	acc := lengthAccessors(p)
 	for _, f := range p.Files {
-		if strings.HasSuffix(p.Path, "/lib/json") && szSkipFiles[filepath.Base(fset.PositionFor(f.Package, false).Filename)] {
+		if szSkipFiles[pathTail(p.Path)+"/"+filepath.Base(fset.PositionFor(f.Package, false).Filename)] {
 			continue
 		}
 		for _, d := range f.Decls {
@@ -2232,7 +2471,10 @@ func walkPackage(p *Pkg, res *szResult, sizes bool) {
 			var convs []*szConv
 			w := &szWalker{p: p, fn: funcLabel(fd), file: relFile(fd.Pos()), init: map[types.Object]int{}, volatile: map[types.Object]bool{},
 				nonneg: map[types.Object]bool{}, lower: map[types.Object]int64{}, elemSet: map[types.Object]bool{}, volFields: map[ekey]bool{}, nassign: map[types.Object]int{}, sites: &sz, accessors: acc,
-				loops: &res.Loops, loopSites: &res.LoopSites, convs: &convs, convOf: map[string]*szConv{}}
+				loopSites: &res.LoopSites, convs: &convs, convOf: map[string]*szConv{}}
+			if loops {
+				w.loops = &res.Loops
+			}
 			w.classify(fd)
 			w.block(fd.Body.List, newState())
 			if !sizes {
@@ -2273,7 +2515,15 @@ func leanSites(b *strings.Builder, sites []szSite, prefix string) {
 		for v := range vs {
 			names = append(names, v)
 		}
-		sort.Strings(names)
+		// in the order the walk defined them (the first epoch number in the name), then by name: a fact that defines a
+		// variable from older ones can be checked by the driver's pruned search as soon as the variable has a value
+		sort.Slice(names, func(a, b int) bool {
+			ea, eb := firstEpoch(names[a]), firstEpoch(names[b])
+			if ea != eb {
+				return ea < eb
+			}
+			return names[a] < names[b]
+		})
 		for k, n := range names {
 			idx[n] = k
 		}
@@ -2286,6 +2536,18 @@ func leanSites(b *strings.Builder, sites []szSite, prefix string) {
 			strings.Join(conds, ",\n   "), s.goal.lean(idx))
 		fmt.Fprintf(b, "def %sp%d : Proved %ss%d.safe := by size_decide %ss%d\n\n", prefix, i, prefix, i, prefix, i)
 	}
+}
+
+func firstEpoch(name string) int {
+	i := strings.IndexByte(name, '#')
+	if i < 0 {
+		return 0
+	}
+	n := 0
+	for j := i + 1; j < len(name) && name[j] >= '0' && name[j] <= '9'; j++ {
+		n = n*10 + int(name[j]-'0')
+	}
+	return n
 }
 
 func leanEntries(b *strings.Builder, name, doc, prefix string, n int) {
@@ -2306,32 +2568,44 @@ func writeFile(path, text string) {
 	}
 }
 
-// writeSizeFacts: Csvq/Gen/SizeFacts.lean, LoopFacts.lean, IntConvFacts.lean and sizefacts.json into dir.
+// writeSizeFacts: for the first group (lib/query; loops also of lib/value, lib/json) Csvq/Gen/SizeFacts.lean, LoopFacts.lean,
+// IntConvFacts.lean and sizefacts.json into dir; for the second group (every other package that runs at query time)
+// LibSizeFacts.lean, LibLoopFacts.lean, LibIntConvFacts.lean and libsizefacts.json.
 func writeSizeFacts(pkgs []*Pkg, dir string) {
-	res := &szResult{ConvKinds: map[string]int{}}
 	computeWrites(pkgs, modulePath(repoRoot()))
-	walkPackage(findPkg(pkgs, "/lib/query"), res, true)
-	walkPackage(findPkg(pkgs, "/lib/value"), res, false)
-	walkPackage(findPkg(pkgs, "/lib/json"), res, false)
-	if len(res.Sizes) < 50 || len(res.Loops) < 20 {
-		fatal("sizefacts: only %d size obligations / %d loops found", len(res.Sizes), len(res.Loops))
+	computeSinkParams(pkgs, modulePath(repoRoot()))
+	core := walkGroup(pkgs, szCoreGroup)
+	if len(core.Sizes) < 50 || len(core.Loops) < 20 {
+		fatal("sizefacts: only %d size obligations / %d loops found", len(core.Sizes), len(core.Loops))
 	}
+	emitGroup(core, dir, "", "", "every function of lib/query", "lib/query, lib/value, lib/json")
+	lg := szGroup{sizePkgs: envList("ERRFACTS_LIB_SIZE_PKGS", szLibGroup.sizePkgs), loopPkgs: envList("ERRFACTS_LIB_LOOP_PKGS", szLibGroup.loopPkgs)}
+	lib := walkGroup(pkgs, lg)
+	if len(lib.Sizes) < 20 || len(lib.Loops) < 5 {
+		fatal("sizefacts: only %d size obligations / %d loops found in %v", len(lib.Sizes), len(lib.Loops), lg.sizePkgs)
+	}
+	emitGroup(lib, dir, "Lib", "lib", "every function of "+strings.Join(lg.sizePkgs, ", "), strings.Join(lg.loopPkgs, ", "))
+}
+
+// emitGroup: the three Lean files (<P>SizeFacts, <P>LoopFacts, <P>IntConvFacts; namespaces Csvq.Gen.<P>Size / <P>Loop / <P>IntConv)
+// and <p>sizefacts.json of one group.
+func emitGroup(res *szResult, dir, P, pj, sizeOf, loopOf string) {
 	var b strings.Builder
-	b.WriteString("-- GENERATED by /verif/extract/errfacts (sizefacts.go) from every function of lib/query — do not edit.\n")
+	b.WriteString("-- GENERATED by /verif/extract/errfacts (sizefacts.go) from " + sizeOf + " — do not edit.\n")
 	b.WriteString("-- One entry per obligation of a size site (strings.Repeat / bytes.Repeat count, make length and capacity, arithmetic\n")
 	b.WriteString("-- index, slice bounds): the operand as integer IR, the facts that hold when control reaches the site, and the result of\n")
 	b.WriteString("-- the uniform tactic `size_decide` (unfold the evaluator, omega): `Proved.yes h` with h a proof for ALL valuations, or `Proved.no`.\n")
-	b.WriteString("import Csvq.Model.SizeFacts\nnamespace Csvq.Gen.Size\nopen Csvq.SizeFacts\n\n")
+	b.WriteString("import Csvq.Model.SizeFacts\nnamespace Csvq.Gen." + P + "Size\nopen Csvq.SizeFacts\n\n")
 	leanSites(&b, res.Sizes, "")
 	leanEntries(&b, "sizeEntries", "every obligation with what the tactic found", "", len(res.Sizes))
-	b.WriteString("end Csvq.Gen.Size\n")
-	writeFile(dir+"/SizeFacts.lean", b.String())
+	b.WriteString("end Csvq.Gen." + P + "Size\n")
+	writeFile(dir+"/"+P+"SizeFacts.lean", b.String())
 
 	b.Reset()
-	b.WriteString("-- GENERATED by /verif/extract/errfacts (loopfacts.go) from every for statement (range loops aside) of lib/query, lib/value, lib/json\n")
+	b.WriteString("-- GENERATED by /verif/extract/errfacts (loopfacts.go) from every for statement (range loops aside) of " + loopOf + "\n")
 	b.WriteString("-- (the goyacc output of lib/json aside) — do not edit.  One entry per (measure, back edge): under the facts of that path of one\n")
 	b.WriteString("-- iteration, measure' < measure and 0 <= measure; `loopSites`: per loop its candidate measures with the numbers of their entries.\n")
-	b.WriteString("import Csvq.Model.SizeFacts\nnamespace Csvq.Gen.Loop\nopen Csvq.SizeFacts\n\n")
+	b.WriteString("import Csvq.Model.SizeFacts\nnamespace Csvq.Gen." + P + "Loop\nopen Csvq.SizeFacts\n\n")
 	leanSites(&b, res.LoopSites, "")
 	leanEntries(&b, "loopEntries", "every (measure, back edge) obligation with what the tactic found", "", len(res.LoopSites))
 	b.WriteString("/-- every loop: file, function, header, number of back edges, candidate measures (text, entries of its back edges) -/\ndef loopSites : List LoopSite := [\n")
@@ -2350,22 +2624,22 @@ func writeSizeFacts(pkgs []*Pkg, dir string) {
 		}
 		fmt.Fprintf(&b, "  ⟨%s, %s, %s, %d, [%s]⟩%s\n", leanStr(l.File), leanStr(l.Fn), leanStr(l.Header), l.Edges, strings.Join(ms, ", "), sep)
 	}
-	b.WriteString("]\n\nend Csvq.Gen.Loop\n")
-	writeFile(dir+"/LoopFacts.lean", b.String())
+	b.WriteString("]\n\nend Csvq.Gen." + P + "Loop\n")
+	writeFile(dir+"/"+P+"LoopFacts.lean", b.String())
 
 	b.Reset()
 	b.WriteString("-- GENERATED by /verif/extract/errfacts (loopfacts.go) — do not edit.  One entry per float -> integer or narrowing integer\n")
 	b.WriteString("-- conversion whose result reaches a size obligation or a loop obligation of the same function: under the facts at the\n")
 	b.WriteString("-- conversion, the operand is a number (nan = 0) inside the range of the target type.\n")
-	b.WriteString("import Csvq.Model.SizeFacts\nnamespace Csvq.Gen.IntConv\nopen Csvq.SizeFacts\n\n")
+	b.WriteString("import Csvq.Model.SizeFacts\nnamespace Csvq.Gen." + P + "IntConv\nopen Csvq.SizeFacts\n\n")
 	leanSites(&b, res.ConvSites, "")
 	leanEntries(&b, "convEntries", "every conversion obligation with what the tactic found", "", len(res.ConvSites))
-	b.WriteString("end Csvq.Gen.IntConv\n")
-	writeFile(dir+"/IntConvFacts.lean", b.String())
+	b.WriteString("end Csvq.Gen." + P + "IntConv\n")
+	writeFile(dir+"/"+P+"IntConvFacts.lean", b.String())
 
 	js, err := json.MarshalIndent(res, "", " ")
 	if err != nil {
 		fatal("%v", err)
 	}
-	writeFile(dir+"/sizefacts.json", string(js))
+	writeFile(dir+"/"+pj+"sizefacts.json", string(js))
 }
